@@ -53,6 +53,7 @@ class SeqEq:
         self.classes = []   # (fname, flat_arg, var)
         self.bvclasses = []  # (fname, abstracted args, var)
         self.memo_bv = {}
+        self._alive = []    # memo keys are z3 AST ids: keep every memoised term alive so that an id is never reused by another term
         self.stats = stats if stats is not None else {}
         self.n = 0
         for c in list(pc) + list(axioms):
@@ -185,6 +186,7 @@ class SeqEq:
         else:
             r = bv
         self.memo_bv[k] = r
+        self._alive.append(bv)
         return r
 
     # ------------------------------------------------------------------ comparison
